@@ -171,7 +171,7 @@ Proof.
   set (s2 := if pendof s1 c =? r then upd_pendm s1 (a_set (pendm s1) c 0) else s1).
   assert (V2 : view s2 d = view s d).
   { subst s2. destruct (pendof s1 c =? r); [rewrite view_upd_pendm_set_other by exact H|]; exact V1. }
-  destruct (b && negb match readyC s2 with [] => true | _ :: _ => false end); exact V2.
+  exact V2.
 Qed.
 
 Lemma view_deliver s c r k d : c <> d -> view (deliver s c r k) d = view s d.
@@ -269,8 +269,7 @@ Lemma str_scomplete b s c r : str (scomplete b s c r) = str s.
 Proof.
   unfold scomplete. destruct (qof s c) as [[|h t]|]; try reflexivity.
   destruct (h =? r); [|reflexivity]. cbv zeta.
-  destruct (pendof (upd_qm s (a_set (qm s) c t)) c =? r);
-    match goal with |- context [if ?b then _ else _] => destruct b end; reflexivity.
+  destruct (pendof (upd_qm s (a_set (qm s) c t)) c =? r); reflexivity.
 Qed.
 
 Lemma only_about_deliver c s r k : only_about c s (deliver s c r k).
